@@ -1,5 +1,5 @@
 """C13: check configuration (PROP) and MANIFEST texts (TEXT)."""
-PROP = {'n_quick': 260,
+PROP = {'tables': ['C03'], 'n_quick': 260,
  'n_thorough': 4000,
  'audit': 6,
  'audit_maxlen': 5000,
